@@ -14,6 +14,16 @@ Model (SEMI E37 section 5/7, T7 not driven - the library has no T7 timer and the
   * Reject.req: no state change, no response
   * data message: SELECTED -> delivered exactly once, no control response; otherwise not delivered and answered by exactly
     one Reject.req (reason 4 = entity not selected) carrying its system bytes
+  * the byte stream of a connection is ordered: a message is judged in the state the messages in front of it leave the
+    session in (a data message right behind a Select.req / the Select.rsp arrives in SELECTED, right behind a Deselect.req
+    in NOT_SELECTED), however the messages are cut into segments; a delivered message is the one received (system bytes,
+    S/F, W, body); the order of delivery among several data messages is not this property's subject and not compared
+
+Data messages: "well-formed" is a matter of the HSMS frame. The body is SECS-II and its conformance to the GEM structure of
+the stream/function is the business of the layer above, so the generator covers, for catalogued and uncatalogued S/F: the
+documented structure, lists with more / fewer elements than documented, items of another format, no body at all, a body
+where none is documented, valid SECS-II of an unrelated shape. The oracle is the same for all of them (gate by state).
+Bodies that are not valid SECS-II are left out (whether those are "well-formed" is not pinned by the statement).
 """
 
 from __future__ import annotations
@@ -22,7 +32,8 @@ from hypothesis import strategies as st
 
 from vf import hsmsrig
 from vf.checks import c04
-from vf.ref import e37
+from vf.gen import items as gen_items
+from vf.ref import e5, e37
 from vf.run import Failure
 
 PROPERTY = "C05"
@@ -31,9 +42,14 @@ TECHNIQUE = "model-based stateful testing (generated op histories vs an E37 refe
 RULE = (
     "Histories of 1..40 ops over {connect, connect with a Select.req already in flight, peer close, disable, enable, "
     "Select.req, Select.rsp (status 0/1..3; matching|stale|unsolicited), Deselect.req, Deselect.rsp, Linktest.req, "
-    "Linktest.rsp, Separate.req, Reject.req, data message (W / no W), application request, 1..3 Select/Deselect/Linktest "
-    "requests racing the peer's close} in passive and active mode, a quarter of them a focused family (connect, [select], "
-    "requests racing close; repeated); with PRNG schedules and parked preemptions in _on_connected, the dispatcher, "
+    "Linktest.rsp, Separate.req, Reject.req, data message (W / no W; catalogued or uncatalogued S/F; body = documented "
+    "structure | over-long list | too-short list | other item format | none | unrelated valid SECS-II), application request, "
+    "1..3 Select/Deselect/Linktest requests racing the peer's close, Select.req/Deselect.req with 1..2 data messages right "
+    "behind it (same segment | back to back | the moment the response is on the wire), in-flight Select.req with a data "
+    "message behind it} in passive and active mode, a quarter of them a focused family (connect, [select], "
+    "requests racing close; repeated), another quarter the family (connect, Select.req+data / Select.rsp+data, further "
+    "ops, close or disable/enable; 2..3 connections) under PRNG schedules with parked preemptions that include the "
+    "control-message handlers; with PRNG schedules and parked preemptions in _on_connected, the dispatcher, "
     "the state transition, the disconnect handler and _process_send_queue; after every op the "
     "implementation's state, the frames it sent and the messages it delivered are compared with the model. "
     "Non-trivial = history with >=1 reconnect, or >=2 select/deselect cycles, or data messages in all three states, or the "
@@ -42,17 +58,146 @@ RULE = (
 ASSUMPTIONS = [
     "E37 reference model typed in from the standard's state table; T7 and linktest-timeout disconnects are outside the event alphabet",
     "schedules sampled (PRNG switch points at shim operations + line-level parked preemptions in the hot set)",
-    "data messages use catalogued S/F with valid bodies (undecodable bodies are C08's subject)",
+    "data message bodies are valid SECS-II or absent (catalogued and uncatalogued S/F, conforming or not to the documented structure); bodies that are not SECS-II at all are not generated",
 ]
 BUDGET_S = {"quick": 110, "thorough": 1200}
 
 HOT = ("_on_connected", "_dispatcher_thread_function", "_on_connection_message_received", "_perform_transition", "_on_disconnected", "_process_send_queue")
 
+# the family "control request with data messages right behind it" also parks inside the control-message handlers (co_names
+# of the private methods are the unmangled names)
+HOT_REQ = HOT + ("__handle_hsms_requests", "__handle_hsms_requests_select_req", "__handle_hsms_requests_deselect_req", "__handle_hsms_requests_select_rsp")
+
 OPS = [
     "connect", "connect_inflight_select", "peer_close", "disable", "enable",
     "select_req", "select_rsp", "deselect_req", "deselect_rsp", "linktest_req", "linktest_rsp",
     "separate_req", "reject_req", "data", "data", "app_request", "answer_select", "app_request_open", "reply_open", "reply_open", "select_req_racing_close", "req_racing_close",
+    "req_then_data",
 ]
+
+# ---- data message bodies -------------------------------------------------------------------------------------------
+# Message structures typed in from SEMI E5 (section 10, message detail), as ref.e5 item trees with sample values; None =
+# header-only message. They only steer the generator (which body classes exist relative to the documented structure);
+# the oracle does not look at the body: at the HSMS layer every data message in a well-formed frame counts.
+_A = lambda t: ("A", t.encode())  # noqa: E731
+STRUCTS = {
+    (1, 1): None,
+    (1, 2): ("L", [_A("MDLN"), _A("1.0")]),
+    (1, 3): ("L", [("U4", [1]), ("U4", [2])]),
+    (1, 13): ("L", [_A("MDLN"), _A("1.0")]),
+    (1, 14): ("L", [("B", b"\x00"), ("L", [_A("MDLN"), _A("1.0")])]),
+    (2, 17): None,
+    (2, 33): ("L", [("U4", [1]), ("L", [("L", [("U4", [10]), ("L", [("U4", [100]), ("U4", [101])])])])]),
+    (2, 41): ("L", [_A("START"), ("L", [("L", [_A("PPID"), _A("recipe")])])]),
+    (5, 1): ("L", [("B", b"\x81"), ("U4", [7]), _A("alarm text")]),
+    (6, 11): ("L", [("U4", [1]), ("U4", [20]), ("L", [("L", [("U4", [10]), ("L", [("U4", [5]), _A("v")])])])]),
+    (6, 12): ("B", b"\x00"),
+    (7, 3): ("L", [_A("pp"), ("B", b"\x01\x02\x03")]),
+    (9, 13): ("L", [_A("S01F02"), _A("edid")]),
+    (10, 3): ("L", [("B", b"\x00"), _A("hello")]),
+}
+CATALOGUED = sorted(STRUCTS)
+UNCATALOGUED = [(1, 99), (3, 17), (6, 3), (64, 1), (99, 7), (127, 255)]  # neither in E5's GEM subset nor in the library's catalogue
+EXTRA = [("U1", [1]), _A("x"), ("L", []), ("B", b"\x00"), ("L", [("U4", [7])]), ("U4", [1, 2])]
+OTHER = [("U4", [1]), _A("zz"), ("B", b"\x01"), ("BOOLEAN", [True]), ("F8", [0x3FF0000000000000]), ("L", []), ("I2", [-1]), ("J", b"\xb1"), ("U1", [])]
+BODY_CLASSES = ("conforming", "overlong", "short", "wrongtype", "empty", "unrelated")
+
+
+def _paths(t, lists):
+    out = []
+
+    def rec(node, path):
+        if node[0] == "L":
+            if lists:
+                out.append(path)
+            for j, c in enumerate(node[1]):
+                rec(c, path + (j,))
+        elif not lists:
+            out.append(path)
+
+    rec(t, ())
+    return out
+
+
+def _replace(t, path, fn):
+    if not path:
+        return fn(t)
+    sub = list(t[1])
+    sub[path[0]] = _replace(sub[path[0]], path[1:], fn)
+    return ("L", sub)
+
+
+@st.composite
+def body_strategy(draw):
+    """-> {"sf": [stream, function], "bclass": label, "body": hex}: a valid SECS-II body (or none) for a catalogued or an
+    uncatalogued stream/function, in one of the classes relative to the documented structure of that function."""
+    if draw(st.integers(0, 4)) == 0:
+        sf = draw(st.sampled_from(UNCATALOGUED))
+        struct = None
+        cls = draw(st.sampled_from(["empty", "unrelated"]))
+    else:
+        sf = draw(st.sampled_from(CATALOGUED))
+        struct = STRUCTS[sf]
+        cls = draw(st.sampled_from(BODY_CLASSES))
+    if struct is None and cls in ("overlong", "short", "wrongtype"):
+        cls = "unrelated"  # a body where the function has none
+    if struct is None and cls == "conforming":
+        cls = "empty"
+    if struct is not None and struct[0] != "L" and cls in ("overlong", "short"):
+        cls = "wrongtype"
+    if cls == "conforming":
+        tree = struct
+    elif cls == "empty":
+        tree = None
+    elif cls == "overlong":
+        path = draw(st.sampled_from(_paths(struct, True)))
+        extra = draw(st.lists(st.sampled_from(EXTRA), min_size=1, max_size=3))
+        tree = _replace(struct, path, lambda n: ("L", list(n[1]) + extra))
+    elif cls == "short":
+        path = draw(st.sampled_from(_paths(struct, True)))
+        keep = draw(st.integers(0, 3))
+        tree = _replace(struct, path, lambda n: ("L", list(n[1])[: min(keep, max(len(n[1]) - 1, 0))]))
+    elif cls == "wrongtype":
+        paths = _paths(struct, False) + _paths(struct, True)
+        path = draw(st.sampled_from(paths))
+        k = draw(st.integers(0, len(OTHER) - 1))
+        tree = _replace(struct, path, lambda n: next(o for o in OTHER[k:] + OTHER[:k] if o[0] != n[0]))
+    else:
+        if draw(st.booleans()):
+            tree = gen_items.to_ref(draw(gen_items.tree(max_depth=3, max_width=3, leaves=gen_items.leaf(max_n=4))))
+        else:
+            others = [v for k_, v in sorted(STRUCTS.items()) if v is not None and k_ != tuple(sf)]
+            tree = draw(st.sampled_from(others))
+    return {"sf": list(sf), "bclass": cls, "body": e5.encode(tree).hex() if tree is not None else ""}
+
+
+@st.composite
+def data_strategy(draw):
+    d = {"w": draw(st.integers(0, 1))}
+    if draw(st.integers(0, 3)) == 0:
+        d["kind"] = draw(st.sampled_from(["S1F1", "S6F12", "S10F3", "S7F3"]))
+    else:
+        d.update(draw(body_strategy()))
+    return d
+
+
+def data_parts(d, i):
+    """(stream, function, body bytes, body class) of a generated data message descriptor."""
+    if "sf" in d:
+        return d["sf"][0], d["sf"][1], bytes.fromhex(d["body"]), d.get("bclass", "conforming")
+    sfw = c04.KINDS[d.get("kind", "S1F1")]
+    return sfw[0], sfw[1], c04._body(d.get("kind", "S1F1"), 5, i), "conforming"
+
+
+@st.composite
+def req_then_data_fields(draw, kind=None):
+    """Select.req / Deselect.req with 1..2 data messages right behind it: in the same segment, as separate back-to-back
+    sends, or sent the moment the response is on the wire."""
+    return {
+        "kind": kind or draw(st.sampled_from(["select", "select", "deselect"])),
+        "mode": draw(st.sampled_from(["segment", "back_to_back", "on_rsp"])),
+        "data": draw(st.lists(data_strategy(), min_size=1, max_size=2)),
+    }
 
 
 @st.composite
@@ -69,14 +214,51 @@ def case_strategy(draw, max_ops=25):
         if k in ("select_rsp", "deselect_rsp", "linktest_rsp"):
             op["sys"] = draw(st.sampled_from(["unsolicited", "stale"]))
         if k == "data":
-            op["w"] = draw(st.integers(0, 1))
-            op["kind"] = draw(st.sampled_from(["S1F1", "S6F12", "S10F3", "S7F3"]))
+            op.update(draw(data_strategy()))
+        if k == "connect_inflight_select" and draw(st.integers(0, 2)) == 0:
+            op["data"] = [draw(data_strategy())]
+        if k == "req_then_data":
+            op.update(draw(req_then_data_fields()))
         if k == "req_racing_close":
             op["kind"] = draw(st.sampled_from(["select", "linktest", "deselect"]))
             op["count"] = draw(st.sampled_from([1, 1, 2, 3]))
         ops.append(op)
     active = draw(st.booleans())
-    if draw(st.integers(0, 3)) == 0:
+    fam = draw(st.integers(0, 7))
+    if fam in (2, 3):
+        # focused family: a previous connection (so that whatever a connection leaves behind is there), then on the new
+        # connection a Select.req (passive) / the Select.rsp (active) with the peer's data message(s) right behind it,
+        # under a random schedule with parked preemptions in the handlers, the dispatcher and the state transition
+        ops = []
+        for r in range(draw(st.integers(2, 3))):
+            ops.append({"op": "connect"})
+            if active and draw(st.integers(0, 2)) > 0:
+                ops.append({"op": "answer_select", "status": 0, "then_data": True})
+            else:
+                op = {"op": "req_then_data"}
+                op.update(draw(req_then_data_fields(kind="select")))
+                ops.append(op)
+            for _ in range(draw(st.integers(0, 2))):
+                k = draw(st.sampled_from(["data", "req_then_data", "deselect_req", "linktest_req", "select_req"]))
+                op = {"op": k}
+                if k == "data":
+                    op.update(draw(data_strategy()))
+                if k == "req_then_data":
+                    op.update(draw(req_then_data_fields()))
+                ops.append(op)
+            # an active endpoint reconnects after T5 only (raised, see the rig set-up): its connection is mostly ended by
+            # disable, enable connects at once
+            closers = [{"op": "disable"}] * 5 + [{"op": "peer_close"}] if active else [{"op": "peer_close"}, {"op": "peer_close"}, {"op": "req_racing_close", "kind": "linktest", "count": 1}, {"op": "disable"}]
+            ops.append(dict(draw(st.sampled_from(closers))))
+            if ops[-1]["op"] == "disable":
+                ops.append({"op": "enable"})
+        return {
+            "ops": ops,
+            "active": active,
+            "sysbase": draw(st.sampled_from([0x40000, 0xFFFFFFFE])),
+            "sched": {"seed": draw(st.integers(1, 2**31)), "switch": draw(st.sampled_from([0.1, 0.5])), "pprob": draw(st.sampled_from([0.02, 0.1])), "hot": list(HOT_REQ)},
+        }
+    if fam in (0, 1):
         # focused family: connect, (select), request racing the peer's close - repeated, under a random schedule
         ops = []
         for _ in range(draw(st.integers(1, 3))):
@@ -84,7 +266,9 @@ def case_strategy(draw, max_ops=25):
             if draw(st.booleans()):
                 ops.append({"op": "select_req"})
             if draw(st.integers(0, 2)) == 0:
-                ops.append({"op": "data", "w": draw(st.integers(0, 1)), "kind": "S1F1"})
+                op = {"op": "data"}
+                op.update(draw(data_strategy()))
+                ops.append(op)
             ops.append({"op": "req_racing_close", "kind": draw(st.sampled_from(["select", "linktest", "deselect"])), "count": draw(st.sampled_from([1, 1, 2, 3]))})
         return {
             "ops": ops,
@@ -122,7 +306,7 @@ def run_case(case, observe=None):
     active = bool(case["active"])
     ops = case["ops"]
     m = Model(active)
-    stats = {"reconnects": 0, "selects": 0, "deselects": 0, "data_states": set(), "inflight": 0}
+    stats = {"reconnects": 0, "selects": 0, "deselects": 0, "data_states": set(), "inflight": 0, "bodies": set()}
     with hsmsrig.make_world(case.get("sched", {})) as w:
         sim = w.sim
         rig = hsmsrig.Rig(w, active=active, t6=5, t5=1000 if active else 10)
@@ -140,6 +324,23 @@ def run_case(case, observe=None):
 
         def fail(bucket, i, obs, exp):
             return Failure(bucket, case, f"op#{i} {ops[i]}: {obs}", exp)
+
+        def data_msgs(descs, i):
+            """Frames of the generated data messages + what the model expects for them in the state m.state."""
+            raw = b""
+            for d in descs:
+                ds = nxt()
+                stream, function, body, bcls = data_parts(d, i)
+                raw += e37.data_frame(0, stream, function, d["w"], ds, body)
+                stats["data_states"].add(m.state)
+                stats["bodies"].add(f"{bcls}@{m.state}")
+                if (stream, function) in UNCATALOGUED:
+                    stats["bodies"].add(f"uncatalogued-sf@{m.state}")
+                if m.state == e37.SELECTED:
+                    expect_msgs.append((ds, stream, function, d["w"], body.hex()))
+                elif m.state == e37.NOT_SELECTED:
+                    expect_frames.append((e37.REJECT_REQ, ds, 4))
+            return raw
 
         def collect():
             """Frames sent by the endpoint since the last call; answers the endpoint's own Linktest.req."""
@@ -163,6 +364,7 @@ def run_case(case, observe=None):
             n_recv = len(rig.received)
             expect_frames = []  # list of (stype, system, byte2, byte3 or None)
             expect_delivered = 0
+            expect_msgs = []  # data messages that have to be delivered by this op: (system, stream, function, w, body hex)
             if k in ("connect", "connect_inflight_select"):
                 if peer_up or not m.enabled:
                     continue
@@ -187,6 +389,11 @@ def run_case(case, observe=None):
                         rig.peer.send(e37.control_frame(e37.SELECT_REQ, s))
                         expect_frames.append((e37.SELECT_RSP, s))
                         stats["inflight"] += 1
+                        if op.get("data"):
+                            # the peer's first data message is in flight right behind its Select.req: it arrives in SELECTED
+                            m.state = e37.SELECTED
+                            rig.peer.send(data_msgs(op["data"], i))
+                            stats["data_behind_select_req"] = stats.get("data_behind_select_req", 0) + (1 if connected_once else 0)
                     sim.settle()
                 if connected_once:
                     stats["reconnects"] += 1
@@ -273,8 +480,9 @@ def run_case(case, observe=None):
                     rsp += e37.data_frame(0, 1, 1, 1, ds, b"")
                     stats["data_states"].add(m.state)
                     stats["data_behind_select_rsp"] = stats.get("data_behind_select_rsp", 0) + 1
+                    stats["bodies"].add(f"empty@{m.state}")
                     if m.state == e37.SELECTED:
-                        expect_delivered = 1
+                        expect_msgs.append((ds, 1, 1, 1, ""))
                     else:
                         expect_frames.append((e37.REJECT_REQ, ds, 4))
                 rig.feed(rsp)
@@ -305,17 +513,34 @@ def run_case(case, observe=None):
             elif k == "reject_req":
                 rig.feed(e37.frame(0xFFFF, 0, 4, 0, e37.REJECT_REQ, nxt()))
             elif k == "data":
-                s = nxt()
-                fr = {"k": op["kind"], "sys": s, "n": 5, "fill": i}
-                sfw = c04.KINDS[op["kind"]]
-                body = c04._body(op["kind"], 5, i)
-                rig.feed(e37.data_frame(0, sfw[0], sfw[1], op["w"], s, body))
-                stats["data_states"].add(m.state)
-                if m.state == e37.SELECTED:
-                    expect_delivered = 1
-                elif m.state == e37.NOT_SELECTED:
-                    expect_frames.append((e37.REJECT_REQ, s, 4))
+                rig.feed(data_msgs([op], i))
                 # after Separate.req either outcome of the two states is acceptable: checked below
+            elif k == "req_then_data":
+                # a Select.req / Deselect.req and the peer's next data message(s) right behind it: the byte stream is ordered,
+                # so the request takes effect first and the data messages are judged in the state it leaves the session in
+                s = nxt()
+                sel = op["kind"] == "select"
+                req = e37.control_frame(e37.SELECT_REQ if sel else e37.DESELECT_REQ, s)
+                expect_frames.append((e37.SELECT_RSP if sel else e37.DESELECT_RSP, s))
+                if sel and m.state == e37.NOT_SELECTED:
+                    m.state = e37.SELECTED
+                    stats["selects"] += 1
+                    stats["data_behind_select_req"] = stats.get("data_behind_select_req", 0) + (1 if stats["reconnects"] else 0)
+                elif not sel and m.state == e37.SELECTED:
+                    m.state = e37.NOT_SELECTED
+                    stats["deselects"] += 1
+                    stats["data_behind_deselect_req"] = stats.get("data_behind_deselect_req", 0) + 1
+                raw = data_msgs(op["data"], i)
+                if op["mode"] == "segment":
+                    rig.feed(req + raw)
+                elif op["mode"] == "back_to_back":
+                    rig.feed(req, settle=False)
+                    rig.feed(raw)
+                else:
+                    # the peer sends its data the moment the response is on the wire
+                    rig.feed(req, settle=False)
+                    sim.pump(stop=lambda: len(rig.peer.rx) >= 14)
+                    rig.feed(raw)
             elif k == "app_request_open":
                 # the application opens a transaction and keeps waiting (answered later by reply_open, in whatever state)
                 if m.state != e37.SELECTED or open_req:
@@ -396,9 +621,14 @@ def run_case(case, observe=None):
             for f in frames:
                 if f["stype"] == e37.REJECT_REQ and f["byte2"] != 0:
                     return fail("reject-header", i, f"byte2={f['byte2']}", "byte2 = SType of the rejected data message (0)")
+            expect_delivered += len(expect_msgs)
             newly = len(rig.received) - n_recv
             if newly != expect_delivered:
                 return fail(f"delivery:{k}:{'not-delivered' if newly < expect_delivered else 'delivered-while-not-selected' if expect_delivered == 0 else 'duplicated'}", i, newly, expect_delivered)
+            if expect_msgs:
+                got_msgs = [(r["system"], r["stream"], r["function"], r["w"], r["body"]) for r in rig.received[n_recv:]]
+                if sorted(got_msgs) != sorted(expect_msgs):
+                    return fail(f"delivery:{k}:other-message-than-received", i, got_msgs, expect_msgs)
         if observe is not None:
             observe.update(stats)
             observe["preempt_hits"] = len(sim.preempt_hits)
@@ -433,13 +663,19 @@ def run_task(name, kw, ctx):
             cls.append("select-req-racing-close")
         if obs.get("data_behind_select_rsp"):
             cls.append("data-in-the-segment-of-select-rsp")
+        if obs.get("data_behind_select_req"):
+            cls.append("data-behind-select-req-after-reconnect")
+        if obs.get("data_behind_deselect_req"):
+            cls.append("data-behind-deselect-req")
+        for b in sorted(obs.get("bodies", ())):
+            cls.append(f"body:{b}")
         if obs.get("reply_while_not_selected"):
             cls.append("reply-to-open-transaction-while-not-selected")
         if obs.get("preempt_hits"):
             cls.append("preemption-hit")
         if case["sched"].get("seed"):
             cls.append("random-schedule")
-        for s in obs.get("data_states", ()):
+        for s in sorted(obs.get("data_states", ())):
             cls.append(f"data-in:{s}")
         ctx.case(case, nontrivial(obs) or f is not None, cls)
         return f
